@@ -222,7 +222,13 @@ func H11() {
 // A union of identityrefs whose bases are equally named identities of three modules keeps all
 // three members, each pointing at its own identity.
 func H11dia() {
-	r := `module r { yang-version 1.1; namespace "urn:r"; prefix r; identity ROOT; identity KIND; identity KR { base KIND; } }`
+	// mutual imports: r imports b back and derives an identity from b's lowest one
+	mutual := symBool()
+	back := ""
+	if mutual {
+		back = `import b { prefix b; } identity BACK { base b:LEAF; } `
+	}
+	r := `module r { yang-version 1.1; namespace "urn:r"; prefix r; ` + back + `identity ROOT; identity KIND; identity KR { base KIND; } }`
 	a := `module a { yang-version 1.1; namespace "urn:a"; prefix a; import r { prefix r; } identity LEFT { base r:ROOT; } identity RIGHT { base r:ROOT; } identity KIND; identity KA { base KIND; } identity KA2 { base KIND; } }`
 	second := []string{"a:RIGHT", "r:ROOT"}[symChoice(2)]
 	b := `module b { yang-version 1.1; namespace "urn:b"; prefix b; import r { prefix r; } import a { prefix a; } identity BOTH { base a:LEFT; base ` + second + `; } identity LEAF { base BOTH; } identity KIND; ` +
@@ -268,15 +274,24 @@ func H11dia() {
 			check(i.Values[k-1].Name <= i.Values[k].Name, "the list is in a fixed order (by name)")
 		}
 	}
-	expect(id("r", "ROOT"), "BOTH", "LEAF", "LEFT", "RIGHT")
+	with := func(names ...string) []string {
+		if mutual {
+			return append(names, "BACK")
+		}
+		return names
+	}
+	expect(id("r", "ROOT"), with("BOTH", "LEAF", "LEFT", "RIGHT")...)
 	if second == "a:RIGHT" {
-		expect(id("a", "RIGHT"), "BOTH", "LEAF")
+		expect(id("a", "RIGHT"), with("BOTH", "LEAF")...)
 	} else {
 		expect(id("a", "RIGHT"))
 	}
-	expect(id("a", "LEFT"), "BOTH", "LEAF")
-	expect(id("b", "BOTH"), "LEAF")
-	expect(id("b", "LEAF"))
+	expect(id("a", "LEFT"), with("BOTH", "LEAF")...)
+	expect(id("b", "BOTH"), with("LEAF")...)
+	expect(id("b", "LEAF"), with()...)
+	if mutual {
+		expect(id("r", "BACK"))
+	}
 	expect(id("a", "KIND"), "KA", "KA2")
 	expect(id("b", "KIND"))
 	expect(id("r", "KIND"), "KR")
